@@ -151,6 +151,10 @@ theorem callstep_owed (st : State) (pc : Pc) :
   | monitorScopeRecheck s b => simp [callStep, pcOwed]
   | demonitor g b => simp [callStep, pcOwed]
   | demonitorScope s b => simp [callStep, pcOwed]
+  | demonitorCall g b => by_cases c : (get st.rel b).isSome = true <;> simp [callStep, pcOwed, c]
+  | demonitorScopeCall s b => by_cases c : (get st.rel b).isSome = true <;> simp [callStep, pcOwed, c]
+  | demonitorFwd g b => simp [callStep, pcOwed]
+  | demonitorScopeFwd s b => simp [callStep, pcOwed]
   | done => simp [callStep, pcOwed]
 
 /-! ### the account -/
